@@ -305,6 +305,25 @@ pub fn float_inputs(seed: u64, count: usize, nmax: usize, dims: &[usize]) -> Vec
     out
 }
 
+/// A generator whose cell undergoes several hundred SUCCESSFUL clips and keeps all of them as faces: `count` neighbours
+/// (almost) on one circle around it - every bisector is tangent to the inscribed circle, so whatever the order in which
+/// they arrive each one cuts off a corner of the polygon built so far and stays a face (+ one above / below in 3D).
+pub fn refine_input(id: usize, dim: usize, count: usize, seed: u64) -> FInput {
+    let mut rng = StdRng::seed_from_u64(seed ^ 0x5E1F1);
+    let c = DVec3::new(0.5, 0.5, if dim == 3 { 0.5 } else { 0.0 });
+    let mut gens = vec![c];
+    for k in 0..count {
+        let phi = (k as f64 + rng.gen_range(-0.2..0.2)) * std::f64::consts::TAU / count as f64;
+        let r = 0.3 * (1.0 + 1e-7 * rng.gen_range(-1.0..1.0));
+        gens.push(c + r * DVec3::new(phi.cos(), phi.sin(), 0.0));
+    }
+    if dim == 3 {
+        gens.push(c + DVec3::Z * 0.29);
+        gens.push(c - DVec3::Z * 0.29);
+    }
+    FInput { id, kind: "refine".into(), gens, anchor: DVec3::ZERO, width: DVec3::ONE, dim, per: false }
+}
+
 fn shift_code(shift: Option<DVec3>, width: DVec3) -> i64 {
     match shift {
         None => -1,
